@@ -41,38 +41,60 @@ def firstSome (l : List (Option String)) : Option String := l.findSome? id
 
 def check (b : Bool) (msg : String) : Option String := if b then none else some msg
 
+def Dump.node (d : Dump n) (i : Nat) : DNode n :=
+  d.nodes[i]?.getD { space := top, depth := 0, expanded := false, skipped := false }
+
+def Dump.outs (d : Dump n) (i : Nat) : List (Nat × Nat × List (Space n)) := d.edges.filter (·.1 == i)
+
+def chkRoot (c : Ctx n) (d : Dump n) : Option String :=
+  check (decide (d.nodes.length > 0) && d.space 0 == c.root) "root is not the percolation of the whole space"
+
+def chkDistinct (d : Dump n) : Option String :=
+  check ((d.nodes.map (·.space)).eraseDups.length == d.nodes.length) "a trap space appears as two nodes"
+
+def chkTrap (c : Ctx n) (d : Dump n) (i : Nat) : Option String :=
+  check (isTrapB c.N (d.node i).space) s!"node {i} is not a trap space"
+
+def chkPerc (c : Ctx n) (d : Dump n) (i : Nat) : Option String :=
+  check (perc c.N (d.node i).space == (d.node i).space) s!"node {i} is not closed under percolation"
+
+def chkTargets (d : Dump n) (i : Nat) : Option String :=
+  check ((d.outs i).all fun e => decide (e.2.1 < d.nodes.length) && e.2.1 != i) s!"node {i} has an edge to a missing node or itself"
+
+def chkMotifs (d : Dump n) (i : Nat) : Option String :=
+  check ((d.outs i).all fun e => !e.2.2.isEmpty) s!"node {i} has an edge without motif"
+
+/-- the successor clause, by kind of node: stub / skip node / ordinary expanded node -/
+def chkKind (c : Ctx n) (mins : List (Space n)) (d : Dump n) (i : Nat) : Option String :=
+  let nd := d.node i
+  let p := nd.space
+  let outs := d.outs i
+  if !nd.expanded then check outs.isEmpty s!"unexpanded node {i} has successors"
+  else if nd.skipped then
+    firstSome
+      [ check (outs.all fun e => (d.space e.2.1).leB p && d.space e.2.1 != p)
+          s!"skip node {i} has a successor that is not strictly inside it",
+        check ((mins.filter fun m => m.leB p).all fun m => m == p || outs.any fun e => m.leB (d.space e.2.1))
+          s!"skip node {i} misses a minimal trap space" ]
+  else
+    check ((outs.flatMap fun e => e.2.2.map fun m => (d.space e.2.1, m)).isPerm
+        ((c.env.maxT p).map fun m => (perc c.N m, m)))
+      s!"expanded node {i}: successors/motifs differ from the percolated maximal trap spaces"
+
+def chkDepth (d : Dump n) (checkDepth : Bool) (i : Nat) : Option String :=
+  if checkDepth then
+    check ((d.node i).depth == longestTo d.pairs d.nodes.length i)
+      s!"depth of node {i} is {(d.node i).depth}, longest root path is {longestTo d.pairs d.nodes.length i}"
+  else none
+
+def nodeChecks (c : Ctx n) (mins : List (Space n)) (d : Dump n) (checkDepth : Bool) (i : Nat) : List (Option String) :=
+  [chkTrap c d i, chkPerc c d i, chkTargets d i, chkMotifs d i, chkKind c mins d i, chkDepth d checkDepth i]
+
 /-- `none` = the dump satisfies the invariant; `some reason` otherwise -/
 def judgeStrict (c : Ctx n) (d : Dump n) (checkDepth : Bool := true) : Option String :=
-  let N := c.N
-  let sz := d.nodes.length
-  let spaces := d.nodes.map (·.space)
-  let mins := minTrapsIn N c.root
-  firstSome <|
-    [ check (sz > 0 && d.space 0 == c.root) "root is not the percolation of the whole space",
-      check (spaces.eraseDups.length == sz) "a trap space appears as two nodes" ] ++
-    ((List.range sz).map fun i =>
-      let nd := d.nodes[i]?.getD { space := top, depth := 0, expanded := false, skipped := false }
-      let p := nd.space
-      let outs := d.edges.filter (·.1 == i)
-      firstSome
-        [ check (isTrapB N p) s!"node {i} is not a trap space",
-          check (perc N p == p) s!"node {i} is not closed under percolation",
-          check (outs.all fun e => e.2.1 < sz && e.2.1 != i) s!"node {i} has an edge to a missing node or itself",
-          check (outs.all fun e => !e.2.2.isEmpty) s!"node {i} has an edge without motif",
-          if !nd.expanded then check outs.isEmpty s!"unexpanded node {i} has successors"
-          else if nd.skipped then
-            firstSome
-              [ check (outs.all fun e => (d.space e.2.1).leB p && d.space e.2.1 != p)
-                  s!"skip node {i} has a successor that is not strictly inside it",
-                check ((mins.filter fun m => m.leB p).all fun m => m == p || outs.any fun e => m.leB (d.space e.2.1))
-                  s!"skip node {i} misses a minimal trap space" ]
-          else
-            let want := (c.env.maxT p).map fun m => (perc N m, m)
-            let got := outs.flatMap fun e => e.2.2.map fun m => (d.space e.2.1, m)
-            check (got.isPerm want) s!"expanded node {i}: successors/motifs differ from the percolated maximal trap spaces",
-          if checkDepth then
-            check (nd.depth == longestTo d.pairs sz i) s!"depth of node {i} is {nd.depth}, longest root path is {longestTo d.pairs sz i}"
-          else none ])
+  let mins := minTrapsIn c.N c.root
+  firstSome ([chkRoot c d, chkDistinct d] ++
+    (List.range d.nodes.length).map fun i => firstSome (nodeChecks c mins d checkDepth i))
 
 /-- nodes without successors that are expanded (`minimal_trap_spaces()`) -/
 def Dump.leaves (d : Dump n) : List (Space n) :=
